@@ -192,6 +192,7 @@ type PropFunc struct {
 	Func  string   `json:"func"`
 	Claim []string `json:"claim"` // obligation kinds claimed: ensures loop pre nopanic overflow lemma
 	Note  string   `json:"note,omitempty"`
+	Only  string   `json:"only,omitempty"` // regexp: obligations of this function that belong to the property
 }
 
 type PropSpec struct {
@@ -218,6 +219,7 @@ type ObResult struct {
 	smt      string
 	output   string
 	query    *Query
+	rawSMT   bool
 }
 
 func kindClaimed(kind string, claim []string) bool {
@@ -387,10 +389,17 @@ func runCheck(o *checkOpts) int {
 		for _, u := range rep.Unsupported {
 			engineErrs = append(engineErrs, pf.Func+": "+u)
 		}
+		var fnOnly *regexp.Regexp
+		if pf.Only != "" {
+			fnOnly = regexp.MustCompile(pf.Only)
+		}
 		groups, order := groupObligations(rep.Obligations)
 		for _, name := range order {
 			recs := groups[name]
 			if onlyRe != nil && !onlyRe.MatchString(name) {
+				continue
+			}
+			if fnOnly != nil && !fnOnly.MatchString(name) {
 				continue
 			}
 			var goals []*Term
@@ -441,6 +450,40 @@ func runCheck(o *checkOpts) int {
 			queries = append(queries, r2)
 		}
 	}
+	// byte-level key lemmas (C13 part A)
+	if spec.KeyLemmas {
+		ex := newExec(ld)
+		ex.topFn = nil
+		ex.fnPrefix = "keylemmas"
+		ex.warnings = map[string]int{}
+		rs, problems := ld.keyLemmaQueries(ex)
+		for _, pr := range problems {
+			engineErrs = append(engineErrs, "key builder not analysable: "+pr)
+		}
+		for _, r := range rs {
+			if onlyRe != nil && !onlyRe.MatchString(r.Name) {
+				continue
+			}
+			queries = append(queries, r)
+		}
+		funcsUnder = append(funcsUnder, "provider/types/keys.go (all []byte key builders)", "consumer/types/keys.go (all []byte key builders)")
+	}
+	// source sweeps
+	for _, sw := range spec.Sweeps {
+		for _, sr := range ld.runSweep(sw, o.verif) {
+			if onlyRe != nil && !onlyRe.MatchString(sr.Name) {
+				continue
+			}
+			r := &ObResult{Name: sr.Name, Kind: "sweep", Claimed: true, Records: len(sr.Found)}
+			if sr.OK {
+				r.Verdict, r.Solver = "unsat", "generator"
+			} else {
+				r.Verdict, r.Solver = "sat", "generator"
+			}
+			r.output = sr.Detail
+			queries = append(queries, r)
+		}
+	}
 	tGen := time.Since(t0).Seconds() - tLoad
 	// solve
 	smtDir := filepath.Join(os.TempDir(), fmt.Sprintf("icsvc-%s-%d", o.prop, os.Getpid()))
@@ -476,7 +519,7 @@ func runCheck(o *checkOpts) int {
 		mode = "race"
 	}
 	for _, r := range queries {
-		if r.query == nil {
+		if r.query == nil && !r.rawSMT {
 			continue
 		}
 		wg.Add(1)
